@@ -22,6 +22,7 @@ import (
 	"fmt"
 	"github.com/polynetwork/poly/common"
 	"github.com/polynetwork/poly/common/config"
+	vbftconfig "github.com/polynetwork/poly/consensus/vbft/config"
 	"github.com/polynetwork/poly/core/genesis"
 	cstates "github.com/polynetwork/poly/core/states"
 	"github.com/polynetwork/poly/native"
@@ -170,6 +171,10 @@ func RegisterCandidate(native *native.NativeService) ([]byte, error) {
 	//check peerPubkey
 	if err := utils.ValidatePeerPubKeyFormat(params.PeerPubkey); err != nil {
 		return utils.BYTE_FALSE, fmt.Errorf("registerCandidate, invalid peer pubkey")
+	}
+	//the pool is keyed by the pubkey string: only the canonical (lower case, compressed) spelling may enter it
+	if pk, err := vbftconfig.Pubkey(params.PeerPubkey); err != nil || vbftconfig.PubkeyID(pk) != params.PeerPubkey {
+		return utils.BYTE_FALSE, fmt.Errorf("registerCandidate, peer pubkey is not in canonical form")
 	}
 
 	peerPubkeyPrefix, err := hex.DecodeString(params.PeerPubkey)
